@@ -40,6 +40,12 @@ type utlInterp struct {
 	mapQuiet bool
 	em  *emWorld
 	yst *utils.Yeast
+	// the last batch a Slice method handed out, kept the way a caller keeps it (socket.flush keeps the
+	// result of AllAndClear while the next Send pushes): it must not change under later operations,
+	// and writing to it must not change the Slice
+	held    []int
+	heldWas string
+	heldAge int
 }
 
 func guard(f func() string) (out string) {
@@ -96,6 +102,28 @@ func errStr(err error) string {
 }
 
 func (it *utlInterp) slice(t []string) string {
+	out := it.slice0(t)
+	if it.held != nil && t[0] != "allandclear" && t[0] != "filter" && t[0] != "slice" {
+		it.heldAge++
+		if ints(it.held) != it.heldWas {
+			out += " ALIAS:returned-batch-changed:" + it.heldWas + "->" + ints(it.held)
+			it.held = nil
+		} else if it.heldAge == 2 {
+			// the caller writes into its batch: the Slice must not see it (the next operation prints the contents)
+			for i := range it.held {
+				it.held[i] = 977
+			}
+			it.heldWas = ints(it.held)
+		}
+	}
+	return out
+}
+
+func (it *utlInterp) hold(v []int) {
+	it.held, it.heldWas, it.heldAge = v, ints(v), 0
+}
+
+func (it *utlInterp) slice0(t []string) string {
 	st := func(res string) string { return res + " ; " + ints(it.sl.All()) }
 	switch t[0] {
 	case "new":
@@ -130,6 +158,7 @@ func (it *utlInterp) slice(t []string) string {
 		if err != nil {
 			return st(errStr(err))
 		}
+		it.hold(v)
 		return st(ints(v))
 	case "splice":
 		v, err := it.sl.Splice(atoi(t[1]), atoi(t[2]), csvInts(t[3])...)
@@ -154,12 +183,16 @@ func (it *utlInterp) slice(t []string) string {
 		return st("ok")
 	case "filter":
 		v := atoi(t[1])
-		return st(ints(it.sl.Filter(func(el int) bool { return el >= v })))
+		fl := it.sl.Filter(func(el int) bool { return el >= v })
+		it.hold(fl)
+		return st(ints(fl))
 	case "findindex":
 		v := atoi(t[1])
 		return st(fmt.Sprint(it.sl.FindIndex(func(el int) bool { return el == v })))
 	case "allandclear":
-		return st(ints(it.sl.AllAndClear()))
+		b := it.sl.AllAndClear()
+		it.hold(b)
+		return st(ints(b))
 	case "clear":
 		it.sl.Clear()
 		return st("ok")
@@ -519,6 +552,10 @@ func famUtl(t *testing.T, r *Rec) {
 			f := strings.SplitN(out, " ; ", 2)
 			r.Cover("slice/" + strings.Fields(op)[2] + "/" + strings.SplitN(want, ":", 2)[0][:min(3, len(want))])
 			okRes := f[0] == want || (want == "err:*" && strings.HasPrefix(f[0], "err:"))
+			if strings.Contains(out, " ALIAS:") {
+				r.Violate("C20", "C20/slice/shares-storage/returned-batch", "a batch handed out by an earlier Slice method changed under "+op+": "+out[strings.Index(out, " ALIAS:")+1:], replay)
+				break
+			}
 			if out == "panic" {
 				r.Violate("C20", "C20/slice/"+strings.Fields(op)[2]+"/panic", "invalid index or count panics instead of returning an error: "+op, replay)
 				break
